@@ -29,6 +29,8 @@ type GenOpts struct {
 	// label for which it returns true (known finding directive-arg-keyword).
 	KeywordLike      func(token string) bool
 	NoNegativeOffset bool // $GENERATE modifiers only with offsets >= 0
+	UncertainTTL     bool // records may omit the TTL right after $INCLUDE / $GENERATE (several acceptable values)
+	MissingTTLShape  bool // ... but only in the line shape "owner type" when the file has no TTL source
 	FixedOptions     bool // parser options as NewRR documents them: origin ".", default TTL 3600
 	OnlyGenerate     bool // mostly $GENERATE items (plus $ORIGIN / $TTL and a few records)
 	IncludeHeavy     bool // many $INCLUDE items, chains up to the depth limit
@@ -289,11 +291,29 @@ func (g *zgen) record(st *State) Item {
 	it.Owner = g.name(st, true)
 	_, avail := st.Inherit()
 	canOmit := st.TTLAsserted() && avail
+	noState := false
+	if g.o.UncertainTTL && !st.TTLAsserted() {
+		// right after an $INCLUDE / $GENERATE: the TTL may be omitted, the denotation then lists
+		// the acceptable values
+		c, own := st.TTLCandidates()
+		canOmit, noState = len(c) > 0, !own
+	}
 	if !canOmit || g.p(50, "hasttl") {
 		it.HasTTL, it.TTL = true, g.ttl()
+		noState = false
 	}
 	if g.p(50, "hasclass") {
 		it.HasClass, it.Class = true, g.class()
+	}
+	if noState && g.o.MissingTTLShape {
+		// a record without any TTL source is only written in the line shape "owner type", which
+		// the library refuses; in the other shapes it accepts the record with TTL 0, the
+		// repository's own tests rely on that ("@ IN SOA ..." without a default TTL), and the
+		// property statement is silent about it
+		it.HasClass = false
+		if it.Owner.Kind == Prev {
+			it.Owner = AbsName(g.absName(st.Origin))
+		}
 	}
 	if !g.o.NoSamples && g.n(8, "sample") == 0 {
 		s := Samples[g.n(len(Samples), "si")]
@@ -549,8 +569,7 @@ func (g *zgen) advance(st *State, it *Item, depth int, cur string) error {
 		}
 		st.Origin = namep(o)
 	case KTTL:
-		st.DollarTTL = u32p(it.DirTTL)
-		st.U1, st.U2 = false, false
+		st.SetDollarTTL(it.DirTTL)
 	case KGenerate:
 		if it.Gen.Steps() < 1 || it.Gen.Steps() > MaxGenerateSteps {
 			return invalid("range")
@@ -561,21 +580,11 @@ func (g *zgen) advance(st *State, it *Item, depth int, cur string) error {
 				return err
 			}
 		}
-		st.OwnerUnknown = true
-		if it.Gen.HasTTL && st.DollarTTL == nil {
-			st.U1 = true
-		}
+		st.AfterGenerate(it.Gen)
 	case KInclude:
 		// the nested file was generated under the right state; mirror the after-effects
-		st.OwnerUnknown = true
 		ip := &interp{z: g.z}
-		dollar, stated := ip.subtreeTTL(ResolveInclude(cur, it.File), map[string]bool{})
-		if dollar {
-			st.U2 = true
-		}
-		if stated && st.DollarTTL == nil {
-			st.U1 = true
-		}
+		st.AfterInclude(ip.subtreeTTL(ResolveInclude(cur, it.File), map[string]bool{}))
 	}
 	return nil
 }
@@ -626,6 +635,7 @@ func (g *zgen) include(st *State, depth int, cur string) Item {
 	}
 	sub.PrevOwner, sub.OwnerUnknown = nil, true
 	sub.Depth = depth + 1
+	sub.ViaGenerateDefault(&it)
 	g.nfile++
 	name := fmt.Sprintf("%s%d", fileNames[g.n(len(fileNames), "fn")], g.nfile)
 	// where the file lives, as seen from the including file: next to it, in a sub-directory, in
